@@ -159,16 +159,31 @@ def main(tier):
         traces.append({"id": i, "obs": [{k: o[k] for k in ("outcome", "fmt", "old", "new", "cur", "backup")} for o in r["obs"]]})
     if rep.machinery_errors:
         return rep.finish()
+    # binding test: an observation sequence with one corrupted field must be REJECTED
+    corrupted = []
+    for t in traces:
+        c1 = json.loads(json.dumps(t))
+        c1["id"] = 1000 + t["id"]
+        c1["obs"][-1]["cur"] = "empty" if c1["obs"][-1]["cur"] != "empty" else "orig"      # versions lost / appearing
+        c2 = json.loads(json.dumps(t))
+        c2["id"] = 2000 + t["id"]
+        c2["obs"][0]["fmt"] = 3 - c2["obs"][0]["fmt"]                                      # the other format number
+        corrupted += [c1, c2]
     with C.Scratch("mig") as d:
         f = os.path.join(d, "t.ndjson")
         with open(f, "w") as fh:
-            for t in traces:
+            for t in traces + corrupted:
                 fh.write(json.dumps(t) + "\n")
         jr = C.run_tlc("Migration_Trace.tla", cfg="Migration_Trace.cfg", workers=1, timeout=900, env={"TRACE_FILE": f}, dfs=True)
     verdict = {v["id"]: (v["reached"], v["n"]) for v in C.tlc_printed_json(jr) if isinstance(v, dict) and "id" in v}
-    if jr.error or len(verdict) != len(traces):
+    if jr.error or len(verdict) != len(traces) + len(corrupted):
         rep.machinery("Migration_Trace failed: %s" % (jr.error or jr.output[-1500:]))
         return rep.finish()
+    not_rejected = [c["id"] for c in corrupted if verdict[c["id"]][0] == verdict[c["id"]][1]]
+    if not_rejected:
+        rep.machinery("the trace specification accepted corrupted traces %s: it does not bind" % not_rejected[:5])
+        return rep.finish()
+    rep.cov["corrupted_traces_rejected"] = len(corrupted)
     accepted = 0
     findings = {}
     killed = 0
